@@ -421,6 +421,11 @@ class Interp(object):
             if isinstance(v, Un):
                 return Un(self._field_ty(v.ty, p[1], p[2] if len(p) > 2 else None), 'field of top')
             return Un(None, 'field of %r' % (v,))
+        if p[0] == 'r':
+            # a sub-slice view lo..hi of an array (split_at and friends)
+            if isinstance(v, Ar):
+                return Ar(v.elems[p[1]:p[2]])
+            return Un(None, 'sub-slice of %r' % (v,))
         if p[0] == 'i':
             if isinstance(v, Ar):
                 vi = vs_of(p[1], st.cons)
@@ -554,6 +559,12 @@ class Interp(object):
                 cs[p[1]] = self._updated(st, cs[p[1]], path[1:], val)
                 return Clo(v.path, cs, v.subst)
             raise Lost('field write into %r' % (v,))
+        if p[0] == 'r':
+            if isinstance(v, Ar):
+                sub = self._updated(st, Ar(v.elems[p[1]:p[2]]), path[1:], val)
+                if isinstance(sub, Ar) and len(sub.elems) == p[2] - p[1]:
+                    return Ar(list(v.elems[:p[1]]) + list(sub.elems) + list(v.elems[p[2]:]))
+            raise Lost('sub-slice write into %r' % (v,))
         if p[0] == 'i':
             if isinstance(v, Ar):
                 vi = vs_of(p[1], st.cons)
@@ -1247,6 +1258,14 @@ class Interp(object):
             raise Lost('switch on %r' % (x,))
         v = vs_of(x.term, st.cons)
         targets = [(int(val), bb) for val, bb in t['targets']]
+        if not v.empty() and v.lo < 0:
+            # switch values are raw bit patterns: a negative discriminant (Ordering::Less = -1) appears as 2^w - 1
+            def signed(val):
+                for w in (8, 16, 32, 64, 128):
+                    if val < (1 << w):
+                        return val - (1 << w) if val >= (1 << (w - 1)) and v.has(val - (1 << w)) else val
+                return val
+            targets = [(signed(val), bb) for val, bb in targets]
         if v.single():
             for val, bb in targets:
                 if val == v.lo:
@@ -1359,6 +1378,19 @@ class Interp(object):
         sub = fv.gargs
         if c.get('trait'):
             hit = models.find_impl(self, c['trait'], c['name'], fv.gargs)
+            tr, nm = c['trait'], c['name']
+            if not hit and tr in ('core::convert::Into', 'core::convert::TryInto') and len(fv.gargs) >= 2:
+                # the blanket impls: Into<U> for T via From<T> for U (same for TryInto / TryFrom)
+                hit = models.find_impl(self, 'core::convert::From' if tr.endswith('::Into') else 'core::convert::TryFrom',
+                                       'from' if tr.endswith('::Into') else 'try_from', [fv.gargs[1], fv.gargs[0]])
+            if not hit and tr in ('core::convert::Into', 'core::convert::From') and len(fv.gargs) >= 2 and len(call_args) == 1:
+                to_ty, from_ty = (fv.gargs[1], fv.gargs[0]) if tr.endswith('::Into') else (fv.gargs[0], fv.gargs[1])
+                a = call_args[0]
+                tn, fn_ = scalar_name(to_ty), scalar_name(from_ty)
+                if ty_str(to_ty) == ty_str(from_ty):
+                    return on_ret(self, st, a)
+                if tn is not None and fn_ is not None and isinstance(a, Sc) and tn != 'bool':
+                    return on_ret(self, st, Sc(mk_cast(tn, a.term, st.cons), to_ty))      # core's lossless primitive From impls
             if hit:
                 key, sub = hit
             elif c.get('has_default') and c['path'] in self.F.fns:
